@@ -759,6 +759,7 @@ def _main(run, args, seed, tier, jobs, budget, tmp) -> int:
     # (1) filter-model probes: cover / probe_ci models are texts with a match, outside every known
     #     region; by the lemma they contain a literal, so the real filter must deliver the extractor.
     probes = {"replayed": 0, "lost": 0, "case_variant_probes": 0}
+    failed_probes = []
     for q in keep:
         res = results.get(q, {})
         rec = recs[specs[q]["index"]]
@@ -771,8 +772,13 @@ def _main(run, args, seed, tier, jobs, budget, tmp) -> int:
             probes["case_variant_probes"] += part == "probe_ci"
             if r["lost"]:
                 probes["lost"] += 1
+                if any(rc["index"] == rec["index"] for _o, rc, *_rest in pending_violations):
+                    continue     # this extractor's lemma (or an earlier probe) is already reported
                 o = base_obl(oname(rec, "probe:filter_delivers_extractor[%s]" % part), kind="probe")
                 o.status, o.values, o.info["replay"] = "refuted", {"text": pr["model"]}, r
+                o.info["note"] = ("bounded probe, reproduced on the real code: the text matches the extractor's regex and "
+                                  "(by the lemma) contains one of its strings, yet get_extractors(text) omits the extractor")
+                failed_probes.append(o)
                 pending_violations.append((o, rec, specs[q], pr["model"], r))
     run.bounded["filter_model_probes"] = dict(probes, note=(
         "bounded, not proof: one solver-chosen matching text per extractor (plus, for re.I extractors, one that "
@@ -819,9 +825,10 @@ def _main(run, args, seed, tier, jobs, budget, tmp) -> int:
             "extractor_index": rec["index"], "extractor_label": rec["label"], "constructor": rec["constructor"],
             "regex": rec["regex"], "flags": rec["flags"], "strings": rec["strings"],
             "text": text, "text_codepoints": ["U+%04X" % ord(c) for c in text],
-            "what": "the text contains a match of the extractor's regex but none of the extractor's `strings`"
-                    + (" (after lower-casing both)" if spec["ci"] else "")
-                    + ": Tokenizer(extractors=[e]) yields a token, AhocorasickTokenizer().get_extractors(text) omits e",
+            "what": ("the text contains a match of the extractor's regex; " + (
+                "it passes the modelled filter, yet " if o.kind == "probe" else
+                "it contains none of the extractor's `strings`" + (" (after lower-casing both)" if spec["ci"] else "") + ": ")
+                + "Tokenizer(extractors=[e]) yields a token, AhocorasickTokenizer().get_extractors(text) omits e"),
             "replay_result": r, "solver": o.solver,
             "rerun": "EYECITE_REPO=%s %s %s --replay <this file>" % (report.REPO, VENV_PY, REPLAY),
         }
@@ -832,12 +839,13 @@ def _main(run, args, seed, tier, jobs, budget, tmp) -> int:
             run.violation("tokenizers.EXTRACTORS[+%d more]/%s" % (len(rest), LEMMA), {
                 "more": [{"obligation": oo.name, "text": tt, "lost": rr.get("lost"), "regex": rc["regex"], "strings": rc["strings"]}
                          for oo, rc, _s, tt, rr in rest]}, any(rr.get("lost") for *_x, rr in rest))
-    # probe obligations are bounded checks: keep them out of the proof count, list them in notes
-    for o, *_ in pending_violations:
-        if o.kind == "probe":
-            run.notes.append("probe failed (reproduced on real code): " + o.name)
+    # a failed probe is a concrete loss on the real code: it is listed as a refuted obligation so that the
+    # evidence level of this run is downgraded (passing probes are bounded side checks and are not counted)
+    for o in failed_probes:
+        run.notes.append("probe failed (reproduced on real code): " + o.name)
 
     run.add_obligations(obls)
+    run.add_obligations(failed_probes)
     run.add_obligations(covers)
     run.add_obligations(canaries)
     extra = extra_obligations(run) or []
